@@ -52,6 +52,9 @@ def slToSexp (s : Sl) : Sexp := Sexp.ofNats [s.start, s.stop, s.step, s.dtype, s
   C04 catslice head|pre (sizes) start stop step  `ok (global positions) ((part (locals))…) (spec positions)`
   C04 pyslice n start stop step                `range(n)[start:stop:step]`
   C04 catlocate (sizes) n                      `ok (part local)` | `ok none`
+  C04 deltasubs ("real"…) (delta …) SUBST INS ENV   substitute() at a Delta node + Delta.eager_subs: `ok declined` | `ok TABLE`
+  C04 indepsubs (independent …) SUBST INS ENV      … at an Independent node (Independent.eager_subs)
+  C04 mpdecide (("bound" "visible")…) (("key" "x"|none)…)  MarkovProduct/Scatter.eager_subs decision on names
   C04 gsubs head|order INS rank (w) ((row)…) (("k" (vals))…) (xa)   Gaussian real substitution, pairs in the given order
 -/
 def handle (args : List Sexp) : String :=
@@ -106,6 +109,44 @@ def handle (args : List Sexp) : String :=
         toString (Sexp.list (r.w.map ratToSexp)) ++ " " ++
         toString (Sexp.list (r.P.map fun row => Sexp.list (row.map ratToSexp)))
     | _, _, _, _, _, _ => "err bad-args"
+  | [Sexp.atom "deltasubs", reals, t, σ, ins, env] =>
+    -- the model of substitute() at a Delta node: children with σ minus the Delta's own names, then Delta.eager_subs
+    match reals.asStrs?, parseTerm t, parseSubst σ, parseIns ins, parseEnv env with
+    | some reals, some (Term.delta ts), some σ, some ins, some env =>
+      let own := ts.map (·.1)
+      let ts' := substDelta ts (sremove σ own)
+      match deltaEagerSubs reals ts' (srestrict σ own) with
+      | none => "ok declined"
+      | some r =>
+        match assignments (ins.map fun (n, k) => (n, ⟨DType.bint k, []⟩)) with
+        | none => "err bad-ins"
+        | some asgs => "ok " ++ toString (tableToSexp (asgs.map fun a => r.meaning (a ++ env)))
+    | _, _, _, _, _ => "err bad-args"
+  | [Sexp.atom "indepsubs", t, σ, ins, env] =>
+    match parseTerm t, parseSubst σ, parseIns ins, parseEnv env with
+    | some (Term.independent fn rv bv dv size), some σ, some ins, some env =>
+      let fn' := substitute fn (sremove σ [bv, dv, rv])
+      let t' := match tget σ rv with
+        | some v => indepEagerSubs fn' bv dv size v
+        | none => Term.independent fn' rv bv dv size
+      "ok " ++ toString (tableToSexp (denoteTable t' ins env))
+    | _, _, _, _ => "err bad-args"
+  | [Sexp.atom "mpdecide", sn, σ] =>
+    -- σ: (("key" "x") | ("key" none) …): Variable x / any other value
+    match sn.asList?.bind (·.mapM fun x => match x with
+            | Sexp.list [k, v] => do pure ((← k.asStr?), (← v.asStr?))
+            | _ => none),
+          σ.asList?.bind (·.mapM fun x => match x with
+            | Sexp.list [k, Sexp.atom "none"] => do pure ((← k.asStr?), (none : Option Name))
+            | Sexp.list [k, Sexp.str v] => do pure ((← k.asStr?), some v)
+            | _ => none) with
+    | some sn, some σ =>
+      match mpDecide sn σ with
+      | none => "ok declined"
+      | some (sn', lz) =>
+        "ok " ++ toString (Sexp.list (sn'.map fun p => Sexp.list [Sexp.str p.1, Sexp.str p.2])) ++ " " ++
+          toString (Sexp.list (lz.map Sexp.str))
+    | _, _ => "err bad-args"
   | [Sexp.atom "catlocate", sizes, n] =>
     match sizes.asNats?, n.asNat? with
     | some sizes, some n =>
